@@ -197,6 +197,41 @@ def check(model: Model, run: Run) -> None:
     if n1c < 10:
         run.cannot('only %d NLRI classes with a field-wise __eq__ examined' % n1c)
 
+    # ------------------------------------------------------------------ R1d equal routes have equal indexes
+    run.rule('C15.R1d', 'equal routes have equal indexes: a class whose index() is the complete packed bytes compares, in a field-wise __eq__, every field it reads out of those bytes', floor=5)
+    n1d = 0
+    for cq in classes:
+        ci = model.classes[cq]
+        if not ({'__eq__', 'index'} & set(ci.methods)):
+            continue
+        eq = model.effective(cq, '__eq__')
+        ix = model.effective(cq, 'index')
+        if eq is None or ix is None or _eq_basis(model, eq) == 'index':
+            continue
+        full = _uses_full_packed(ix)
+        for r in walk_no_nested(ix.node):
+            if isinstance(r, ast.Return) and isinstance(r.value, ast.Call) and isinstance(r.value.func, ast.Attribute) and r.value.func.attr == 'index':
+                base = dotted(r.value.func.value) or ''
+                for c_ in ci.mro or []:
+                    if c_.endswith('.' + base) and c_ in model.classes and 'index' in model.classes[c_].methods:
+                        full = full or _uses_full_packed(model.classes[c_].methods['index'])
+        ef = _eq_fields(eq) | ({'_packed'} if any(isinstance(a, ast.Attribute) and dotted(a) == 'self._packed' for a in ast.walk(eq.node)) else set())
+        if not full or '_packed' in ef:
+            continue
+        n1d += 1
+        props = set()
+        for c_ in ci.mro or [cq]:
+            cc = model.classes.get(c_)
+            if cc is None or not c_.startswith('exabgp.bgp.message.update.nlri.') or c_ == NLRI:
+                continue
+            for nm, f2 in cc.methods.items():
+                if any(isinstance(d_, ast.Name) and d_.id == 'property' for d_ in f2.node.decorator_list) and 'self._packed' in norm(f2.node):
+                    props.add(nm)
+        ignored = sorted(props - ef)
+        run.check(not ignored, cq, '__eq__ compares every wire field of a route indexed by its complete bytes (ignored: %s)' % ignored, eq.loc(), 'two routes that differ only in %s compare equal (and hash equal) but index() - the complete packed bytes - differs: the RIB keeps both under two keys' % ', '.join(ignored))
+    if n1d < 5:
+        run.cannot('only %d classes with a field-wise __eq__ and a byte-wise index examined' % n1d)
+
     # ------------------------------------------------------------------ R5 AS_PATH survives the 2-byte detour (shared with C01.R3)
     run.rule('C15.R5', 'AS_PATH round trip through a 2-byte session: AS_TRANS substitution flagged over the whole path and AS4_PATH carrying the original path (shared with C01.R3)', floor=4)
     from .C01 import _r3_aspath
